@@ -118,6 +118,19 @@ def make_stub_classifier():
             classes = getattr(self, "classes_", np.arange(self.n_classes))
             return np.array([classes[int(facade.FACADE.argmax(P[i]))] for i in range(P.shape[0])])
 
+    class StubPartialClassifier(StubClassifier):
+        """the same learner with an incremental interface: the model after partial_fit is a function of the model before
+        and of the new batch (and of nothing else)"""
+
+        def partial_fit(self, X, y, sample_weight=None):
+            if self.validate:
+                X, y, sample_weight = self._validate_data(X, y, sample_weight)
+            self.fit_log_ = getattr(self, "fit_log_", []) + [("partial", X, y, sample_weight)]
+            self.gen_ = _train_key(getattr(self, "gen_", self.gen), X, y, sample_weight)
+            self.classes_ = np.arange(self.n_classes) if self.classes is None else np.asarray(self.classes)
+            return self
+
+    StubClassifier.Partial = StubPartialClassifier
     return StubClassifier
 
 
@@ -127,10 +140,10 @@ _CACHE = {}
 CREATED = []   # every model handed out by the two factories below (C05 inspects them after a query)
 
 
-def StubClassifier(**kw):
+def StubClassifier(partial=False, **kw):
     if "cls" not in _CACHE:
         _CACHE["cls"] = make_stub_classifier()
-    m = _CACHE["cls"](**kw)
+    m = (_CACHE["cls"].Partial if partial else _CACHE["cls"])(**kw)
     CREATED.append(m)
     return m
 
